@@ -281,14 +281,26 @@ def denomsOf (l1 l2 : List (String × Nat)) (extra : List String) : List String 
 
 def boolStr (b : Bool) : String := if b then "true" else "false"
 
+/-- "set:0.1.1.2,remove:1,add:3" -/
+def parseWlOps (s : String) : Option (List Spec.C05.WlOp) :=
+  (listOf s ",").mapM (fun e => do
+    let (k, v) := splitFirst e ':'
+    if k == "set" then (parseNatList v ".").map Spec.C05.WlOp.set
+    else if k == "add" then v.toNat?.map Spec.C05.WlOp.add
+    else if k == "remove" then v.toNat?.map Spec.C05.WlOp.remove
+    else none)
+
 def chk (pred : String) (m : List (String × String)) : Option Bool :=
   match pred with
   | "wf" => do
     let p ← parseProphecy (← get m "p")
     pure (Spec.C05.prophecyWF p)
+  | "wlmember" => do
+    let ops ← parseWlOps (← get m "ops")
+    pure (Spec.C05.sameMembers (← parseNatList (← get m "stored") ",") (Spec.C05.wlLedger ops))
   | "accept" => do
     let vals ← parseVals (← get m "vals")
-    let wl ← parseNatList (← get m "wl") ","
+    let wl ← (parseWlOps (← get m "wlops")).map Spec.C05.wlLedger
     pure (Spec.C05.acceptedClaimantOK vals wl (← parseAcct (← get m "v")))
   | "wlview" => do
     pure (Spec.C05.viewIsStore (← parseNatList (← get m "view") ",") (← parseNatList (← get m "stored") ","))
@@ -301,7 +313,7 @@ def chk (pred : String) (m : List (String × String)) : Option Bool :=
     pure (Spec.C05.storeBytesSame (← get m "first") (← get m "now"))
   | "thr" => do
     let vals ← parseVals (← get m "vals")
-    let wl ← parseNatList (← get m "wl") ","
+    let wl ← (parseWlOps (← get m "wlops")).map Spec.C05.wlLedger
     let p ← parseProphecy (← get m "p")
     pure (Spec.C05.thresholdMet vals wl p)
   | "fin" => do
